@@ -5,6 +5,7 @@ Python single markers with `in` lists as `LeafAlts` for poetry's own leaf truth,
 import PoetryVerif.Proofs.PyConvLeaf
 import PoetryVerif.Proofs.PyConvIn
 import PoetryVerif.Proofs.PyConvGpcAlts
+import PoetryVerif.Proofs.PyConvNotIn
 
 set_option linter.unusedSimpArgs false
 set_option linter.unusedVariables false
@@ -12,12 +13,14 @@ set_option linter.unusedVariables false
 namespace Poetry.Marker
 open Poetry Poetry.Spec.Pep508 Poetry.VParser
 
-/-- the python leaves the marker → range theorems cover: comparison items of the exact shape, and
-`python_version in "X0.Y0 X1.Y1 …"` -/
+/-- the python leaves the marker → range theorems cover: comparison items of the exact shape,
+`python_version in "X0.Y0 X1.Y1 …"` and `python_version not in "X0.Y0 X1.Y1 …"` -/
 def PyShapedL (l : Leaf) : Prop :=
   convKey l.name = pyKey →
     (∃ s lit, l = .single s ∧ s.swapped = false ∧ RelOp s.op ∧ PyItem s.name lit ∧ s.value = Version.relText lit) ∨
     (∃ s p0 rest, l = .single s ∧ s.swapped = false ∧ s.name = "python_version" ∧ s.op = "in" ∧
+      s.value = verList2 p0 rest ∧ ∀ q ∈ rest, SepRun q.1) ∨
+    (∃ s p0 rest, l = .single s ∧ s.swapped = false ∧ s.name = "python_version" ∧ s.op = "not in" ∧
       s.value = verList2 p0 rest ∧ ∀ q ∈ rest, SepRun q.1)
 
 theorem starItem_shape (p : Nat × Nat) : ItemShape (String.ofList (starItem p)) := by
@@ -37,7 +40,8 @@ theorem starItem_means (p : Nat × Nat) (X Y Z : Nat) :
 
 theorem leafAlts_of_comp (E : Env) (X Y Z : Nat) (hE : EnvPy E X Y Z) (l : Leaf) (hc : CompLeaf E l)
     (hs : PyShapedL l) (hk : convKey l.name = pyKey) : LeafAlts (leafEval E) X Y Z l := by
-  rcases hs hk with ⟨s, lit, rfl, hsw, hop, hi, hv⟩ | ⟨s, p0, rest, rfl, hsw, hn, hop, hv, hsep⟩
+  rcases hs hk with ⟨s, lit, rfl, hsw, hop, hi, hv⟩ | ⟨s, p0, rest, rfl, hsw, hn, hop, hv, hsep⟩ |
+    ⟨s, p0, rest, rfl, hsw, hn, hop, hv, hsep⟩
   · exact leafAlts_of_clause (leafClause_of_comp E X Y Z hE _ hc (fun _ => ⟨s, lit, rfl, hsw, hop, hi, hv⟩) hk)
   · obtain ⟨s', he, hcoh, ⟨b0, hb0⟩, _⟩ := hc
     injection he with he; subst he
@@ -59,12 +63,12 @@ theorem leafAlts_of_comp (E : Env) (X Y Z : Nat) (hE : EnvPy E X Y Z) (l : Leaf)
         have : leafEval E (.single s) = b := by simp [leafEval, Leaf.validate, hb1]
         rw [this, ← hb2]
     have halts := versionListItems_in2 p0 rest hsep
-    refine ⟨s, _, rfl, Or.inr ⟨hop, rfl⟩, ?_, ?_, ?_, ?_⟩
+    refine ⟨s, _, rfl, Or.inr (Or.inl ⟨hop, rfl⟩), ?_, ?_, ?_, ?_⟩
     · rw [hv, halts]; simp
     · intro it hit
       rw [hv, halts] at hit
       obtain ⟨p, _, rfl⟩ := List.mem_map.1 hit
-      exact ⟨starItem_shape p, _, starItem_means p X Y Z⟩
+      exact ⟨entryShape_item (starItem_shape p), _, starItem_means p X Y Z⟩
     · intro he
       rw [hle, List.any_eq_true] at he
       obtain ⟨p, hp, hd⟩ := he
@@ -79,6 +83,47 @@ theorem leafAlts_of_comp (E : Env) (X Y Z : Nat) (hE : EnvPy E X Y Z) (l : Leaf)
         have := List.any_eq_false.1 he p hp
         simpa using this
       have := starItem_means p X Y Z; rwa [hd] at this
+
+  · obtain ⟨s', he, hcoh, ⟨b0, hb0⟩, _⟩ := hc
+    injection he with he; subst he
+    -- the leaf's own truth
+    obtain ⟨b, hb1, hb2, _⟩ := agree_pv_notin E p0 rest hsep X Y hE.1
+    rw [evalItem_notin2 E X Y Z hE p0 rest hsep] at hb2
+    injection hb2 with hb2
+    have hle : leafEval E (.single s) = !(p0 :: rest.map (·.2)).any (fun p => decide (X = p.1 ∧ Y = p.2)) := by
+      simp only [Single.coherent, hsw, hv, hop, hn] at hcoh
+      simp only [itemV] at hb1
+      cases hm : mkSingle "python_version" (itemConstraintString "not in" (verList2 p0 rest) false) false with
+      | error e => rw [hm] at hcoh; cases hcoh
+      | ok s2 =>
+        rw [hm] at hcoh hb1
+        have hc2 : s2.c = s.c := by simpa using hcoh
+        have hn2 : s2.name = s.name := by
+          rw [mkSingle_name _ _ _ _ hm, hn]; decide
+        simp only [hc2, hn2] at hb1
+        have : leafEval E (.single s) = b := by simp [leafEval, Leaf.validate, hb1]
+        rw [this, ← hb2]
+    have halts := versionListItems_notin2 p0 rest hsep
+    have hentry : joinWith ", " (versionListItems false s.value) = neEntry p0 (rest.map (·.2)) := by
+      rw [hv, halts]; rfl
+    have hmeans := neEntry_means p0 (rest.map (·.2)) X Y Z
+    refine ⟨s, _, rfl, Or.inr (Or.inr ⟨hop, rfl⟩), by simp, ?_, ?_, ?_⟩
+    · intro it hit
+      simp only [List.mem_singleton] at hit
+      subst hit
+      rw [hentry]
+      exact ⟨neEntry_shape _ _, _, hmeans⟩
+    · intro he
+      refine ⟨joinWith ", " (versionListItems false s.value), by simp, ?_⟩
+      rw [hentry]
+      rw [hle] at he
+      rwa [he] at hmeans
+    · intro he it hit
+      simp only [List.mem_singleton] at hit
+      subst hit
+      rw [hentry]
+      rw [hle] at he
+      rwa [he] at hmeans
 
 /-- the leaf invariant with `in` lists -/
 def PyGL (E : Env) (l : Leaf) : Prop := CompLeaf E l ∧ PyShapedL l
